@@ -10,6 +10,7 @@ evaluator.  A rejected edit must leave every observable unchanged.
 
 from __future__ import annotations
 
+import contextlib
 import copy
 import os
 import traceback
@@ -237,6 +238,40 @@ def _val(op: dict) -> Any:
     return _ia(op["ia"]) if "ia" in op else op["value"]
 
 
+SIBLING_EDITS = [0]
+
+
+def _table(op: dict, kind: str) -> dict:
+    """The table of a plural add/update; in the object form the values are Parameter / Variable objects."""
+    from mxlpy.types import Parameter, Variable
+
+    if "objects" not in op:
+        return {it["name"]: _val(it) for it in op["items"]}
+    mk = (lambda v: Parameter(value=v)) if kind == "parameter" else (lambda v: Variable(initial_value=v))
+    if op["objects"] == "shared":
+        one = mk(_val(op["items"][0]))
+        return {it["name"]: one for it in op["items"]}
+    return {it["name"]: mk(_val(it)) for it in op["items"]}
+
+
+def _use_table_elsewhere(table: dict, kind: str) -> None:
+    """The caller goes on using the table given to the model: builds a second model from it and edits that one."""
+    from mxlpy import Model
+
+    sib = Model()
+    names = list(table)
+    with contextlib.suppress(Exception):
+        if kind == "parameter":
+            sib.add_parameters(table)
+            sib.update_parameter(names[0], 77.0)
+            sib.scale_parameter(names[-1], 3.0)
+        else:
+            sib.add_variables(table)
+            sib.update_variable(names[0], 77.0)
+            sib.update_variables({names[-1]: 55.0})
+        SIBLING_EDITS[0] += 1
+
+
 def apply_real(model, op: dict) -> None:  # noqa: ANN001
     from mxlpy.surrogates.abstract import MockSurrogate
 
@@ -281,13 +316,33 @@ def apply_real(model, op: dict) -> None:  # noqa: ANN001
     elif o == "make_variable_static":
         model.make_variable_static(op["name"], op.get("value"))
     elif o == "add_parameters":
-        model.add_parameters({it["name"]: _val(it) for it in op["items"]})
+        table = _table(op, "parameter")
+        try:
+            model.add_parameters(table)
+        finally:
+            if "objects" in op:
+                _use_table_elsewhere(table, "parameter")
     elif o == "add_variables":
-        model.add_variables({it["name"]: _val(it) for it in op["items"]})
+        table = _table(op, "variable")
+        try:
+            model.add_variables(table)
+        finally:
+            if "objects" in op:
+                _use_table_elsewhere(table, "variable")
     elif o == "update_parameters":
-        model.update_parameters({it["name"]: _val(it) for it in op["items"]})
+        table = _table(op, "parameter")
+        try:
+            model.update_parameters(table)
+        finally:
+            if "objects" in op:
+                _use_table_elsewhere(table, "parameter")
     elif o == "update_variables":
-        model.update_variables({it["name"]: _val(it) for it in op["items"]})
+        table = _table(op, "variable")
+        try:
+            model.update_variables(table)
+        finally:
+            if "objects" in op:
+                _use_table_elsewhere(table, "variable")
     elif o == "remove_parameters":
         model.remove_parameters([it["name"] for it in op["items"]])
     elif o == "remove_variables":
@@ -581,6 +636,14 @@ def gen_op(rng, spec: dict, removed: list[str], counter: list[int]) -> dict:  # 
         if invalid_first:
             nm[0] = "ghost"
         items = [{"name": n, "factor": 2.0} for n in nm]
+    if o.startswith(("add_", "update_")) and rng.random() < 0.5:
+        # the documented other input form: Parameter / Variable objects; "shared" = one object (one value) given for every
+        # name of the table, and the same table is used afterwards to build and edit a second, unrelated model
+        objects = rng.choice(["separate", "shared"])
+        if objects == "shared":
+            for it in items:
+                it["value"] = items[0]["value"]
+        return {"op": o, "items": items, "objects": objects}
     return {"op": o, "items": items}
 
 
@@ -769,13 +832,21 @@ def run_case(case: dict) -> dict:
         history: list[dict] = []
         cnt = [0]
         n = rng.randint(2, 14)
+        pending: list[dict] = []
         for _ in range(n):
-            if rng.random() < 0.3:
+            if not pending and rng.random() < 0.3:
                 q = rng.choice(QUERIES)
                 run_query(model, q, STATE_VALS)
                 history.append({"query": q})
                 continue
-            op = gen_op(rng, mirror, removed, cnt)
+            op = pending.pop() if pending else gen_op(rng, mirror, removed, cnt)
+            if op.get("objects") == "shared" and rng.random() < 0.7:
+                # one of the names that were given the same object is edited next
+                nm0 = op["items"][-1]["name"]
+                if "parameter" in op["op"]:
+                    pending.append(rng.choice([{"op": "scale_parameter", "name": nm0, "factor": 2.0}, {"op": "update_parameter", "name": nm0, "value": 3.25}]))
+                else:
+                    pending.append({"op": "update_variable", "name": nm0, "value": 3.25})
             history.append(op)
             before_names = namespace(mirror)
             mirror, v = step(model, mirror, op, cache_populated_counter=cpc, check_after=rng.random() < 0.8)
@@ -794,6 +865,8 @@ def run_case(case: dict) -> dict:
         if case.get("idx", 0) % 97 == 0:
             sample = {"history": history}
     counters["mutator_ran_with_cache_populated"] = cpc[0]
+    counters["table_of_objects_reused_for_a_second_model_that_was_then_edited"] = SIBLING_EDITS[0]
+    SIBLING_EDITS[0] = 0
     counters["evaluating_edit_refused_on_unresolvable_content(fresh model alike)"] = FRESH_REFUSALS[0]
     FRESH_REFUSALS[0] = 0
     # dedupe
